@@ -307,6 +307,7 @@ func joinFilter(a []any, sep func(string) string) any {
 	ss := make([]string, 0, len(a))
 	s := sep(" ")
 	for _, v := range a {
+		v = values.ToLiquid(v) // a Drop joins as the value it stands for
 		if v != nil {
 			ss = append(ss, fmt.Sprint(v))
 		}
